@@ -231,6 +231,8 @@ func addrKey(s *srv, api int) string {
 	return "<" + s.addr + ">"
 }
 
+var mintSeq int
+
 func runCase(c Case) (string, stats) {
 	st := stats{tags: map[int]bool{}, servers: map[int]bool{}}
 	security.ClearSessionCache()
@@ -335,6 +337,24 @@ func runCase(c Case) (string, stats) {
 			}
 		case "sweep":
 			cache.InvalidateExpired()
+		case "mint":
+			// a session pre-registered by the application for outbound use (a startd's claim session towards
+			// its schedd): filed under (tag, address, command) like any other
+			tag, cmd := tags[op.Tag%3], cmds[op.Cmd%4]
+			key := routeKey{tag, addrKey(s, op.API), cmd}
+			mintSeq++
+			m, err := security.MintClaimSession(cache, security.MintClaimOptions{Sinful: fmt.Sprintf("<10.9.8.7:%d>", 9000+mintSeq), Birthdate: 1700000000, SequenceNum: mintSeq,
+				PeerAddr: key.addr, Tag: tag, ExtraValidCommands: []int{cmd}})
+			if err != nil {
+				return fail("C07 harness: mint: %v", err)
+			}
+			if old, ok := md.route[key]; ok && old != m.SessionID() {
+				_ = old // the newer registration takes the route
+			}
+			md.route[key] = m.SessionID()
+			md.clientLive[m.SessionID()] = true
+			md.owner[m.SessionID()] = key
+			st.crossTriple = true
 		case "handshake":
 			tag, cmd := tags[op.Tag%3], cmds[op.Cmd%4]
 			st.tags[op.Tag%3], st.servers[op.Srv%3] = true, true
@@ -474,7 +494,7 @@ func genCase(t *rapid.T) Case {
 	var c Case
 	n := rapid.IntRange(3, 12).Draw(t, "nops")
 	for i := 0; i < n; i++ {
-		k := rapid.SampledFrom([]string{"handshake", "handshake", "handshake", "handshake", "handshake", "policy", "restart", "break", "expire", "invalidate", "sweep"}).Draw(t, "op")
+		k := rapid.SampledFrom([]string{"handshake", "handshake", "handshake", "handshake", "handshake", "policy", "restart", "break", "expire", "invalidate", "sweep", "mint"}).Draw(t, "op")
 		c.Ops = append(c.Ops, Op{K: k, Tag: rapid.IntRange(0, 2).Draw(t, "tag"), Srv: rapid.IntRange(0, 2).Draw(t, "srv"),
 			Cmd: rapid.IntRange(0, 3).Draw(t, "cmd"), API: rapid.IntRange(0, 1).Draw(t, "api"), V: rapid.IntRange(0, 15).Draw(t, "v")})
 	}
@@ -523,6 +543,9 @@ func TestC07Directed(t *testing.T) {
 			cases = append(cases, Case{Ops: []Op{hs(tg, 0, 0, api), {K: "expire", V: 1}, hs(tg, 0, 0, api), hs(tg, 0, 1, api)}})
 			cases = append(cases, Case{Ops: []Op{hs(tg, 0, 0, api), {K: "expire", V: 0}, hs(tg, 0, 1, api)}})
 			cases = append(cases, Case{Ops: []Op{hs(tg, 0, 0, api), {K: "invalidate"}, hs(tg, 0, 0, api), hs(tg, 0, 1, api)}})
+			for other := 0; other < 3; other++ { // a minted session under tg; handshakes under every tag, another server, another command
+				cases = append(cases, Case{Ops: []Op{{K: "mint", Tag: tg, Srv: 0, Cmd: 0, API: api}, hs(other, 0, 0, api), hs(other, 1, 0, api), hs(other, 0, 1, api), hs(tg, 0, 0, api)}})
+			}
 		}
 	}
 	bad := 0
